@@ -104,7 +104,7 @@ def padding_for(N, n):
 
 
 @st.composite
-def base_config(draw, nmin=16, nmax=64, max_laststep=60, min_laststep=1, multibunch=True, wake=("none", "collimator", "wall", "csr", "plates"),
+def base_config(draw, nmin=16, nmax=64, max_laststep=60, min_laststep=1, multibunch=True, wake=("none", "collimator", "wall", "csr", "plates", "file"),
                 allow_track=False, big=0, via_rev=0, machine=0):
     """a fast, valid configuration: returns dict of options (JSON-able); big=k: one configuration in k uses a
     production-size grid (the program's default is 256); via_rev=k: one configuration in k gives the number of steps through
@@ -195,6 +195,15 @@ def base_config(draw, nmin=16, nmax=64, max_laststep=60, min_laststep=1, multibu
         o["VacuumGap"] = -1.0
     elif w == "plates":
         o["VacuumGap"] = draw(st.sampled_from([0.03, 0.01]))
+    elif w == "file":
+        # impedance table read from a file (cli.run writes zgen.dat into the run directory), alone or added to a model
+        o["Impedance"] = "zgen.dat"
+        if draw(st.booleans()):
+            o["VacuumGap"] = 0.0
+        else:
+            o["UseCSR"] = False
+            o["VacuumGap"] = 0.03
+            o["CollimatorRadius"] = 0.005
     if fs_route:
         d = derive(o)
         o["SynchrotronFrequency"] = gen.f32(d["fs"])
